@@ -528,9 +528,11 @@ package gorm
 //@   assert one-row-in-primary-key-order: orderedByPK != 0 && ref(arg0) == orderedByPK [C16]
 //@ func (*DB).FirstOrCreate
 //@   tags C16
+//@   assumes handle-well-formed: db.clone > 0 || db.Statement.DB == db
 //@   ensures at-most-one-write: creates + updatesCalls <= old(creates) + old(updatesCalls) + 1
 //@ func (*DB).FirstOrInit
 //@   tags C16
+//@   assumes handle-well-formed: db.clone > 0 || db.Statement.DB == db
 //@   ensures never-writes: creates == old(creates) && updatesCalls == old(updatesCalls)
 
 //@ # ---------- C16: Save's inserts are upserts over all fields ----------
